@@ -318,6 +318,16 @@ func (E *Engine) pureResult(fr *Frame, st *State, name string, res *types.Tuple,
 		v := E.tb.UF(fmt.Sprintf("ext$%s$%d", sanitize(name), i), E.sortOf(t, fr.tenv), targs...)
 		if !fr.spec {
 			E.addFact(st, E.wellTyped(v, t, fr.tenv))
+			if name == "strings.Split" && i == 0 && len(targs) == 2 {
+				// documented: a non-empty separator yields at least one element
+				E.note("trusted library model: strings.Split with a non-empty separator returns at least one element")
+				E.addFact(st, E.tb.Implies(E.tb.Not(E.tb.Eq(targs[1], E.strLit(""))), E.tb.Cmp(">=", E.slcLen(v), E.tb.Int(1))))
+			}
+			if name == "strings.SplitN" && i == 0 && len(targs) == 3 {
+				E.note("trusted library model: strings.SplitN with a non-empty separator and n != 0 returns at least one element (at most n when n > 0)")
+				E.addFact(st, E.tb.Implies(E.tb.And(E.tb.Not(E.tb.Eq(targs[1], E.strLit(""))), E.tb.Not(E.tb.Eq(targs[2], E.tb.Int(0)))), E.tb.Cmp(">=", E.slcLen(v), E.tb.Int(1))))
+				E.addFact(st, E.tb.Implies(E.tb.Cmp(">", targs[2], E.tb.Int(0)), E.tb.Cmp("<=", E.slcLen(v), targs[2])))
+			}
 		}
 		out = append(out, v)
 	}
@@ -380,6 +390,11 @@ func (E *Engine) havocAll(st *State) {
 	E.nextBase++
 	st.base = E.nextBase
 	st.heap = map[string]*Term{}
+	for k, v := range old.heap {
+		if E.frozenKey[k] {
+			st.heap[k] = v
+		}
+	}
 	E.addFact(st, E.tb.Cmp("<=", al, E.clock(st)))
 	E.preserveUnescaped(st, old, nil)
 }
@@ -500,10 +515,11 @@ func (E *Engine) callFn(fr *Frame, st *State, fn *ssa.Function, args []Val, bind
 	if len(body.Blocks) == 0 {
 		return E.external(fr, st, fn, name, args, instr)
 	}
-	if h := E.P.contracts[org]; h != nil && !fr.spec && !(fr.proveTarget == org) && !E.harness.InlineTargets[org] {
+	ghostPure := fr.ghost && E.P.pureFns[org] && fr.proveTarget != org // specification text naming a pure function: no effects
+	if h := E.P.contracts[org]; h != nil && !fr.spec && !ghostPure && !(fr.proveTarget == org) && !E.harness.InlineTargets[org] {
 		return E.useContract(fr, st, h, fn, args, instr)
 	}
-	if E.P.pureFns[org] {
+	if E.P.pureFns[org] && fr.proveTarget != org {
 		// declared //verif:pure: no effect, result a function of the arguments (and of the memory read
 		// through slice / map / small-struct arguments); an assumption, listed
 		E.note("declared pure (//verif:pure): " + shortName(name) + " has no effect and returns a function of its arguments")
@@ -784,7 +800,15 @@ func (E *Engine) summarise(hf *Frame, st *State, body *ssa.Function, tenv TEnv, 
 	} else {
 		// external target with a trusted contract: the contract's frame is what it writes; by default nothing
 	}
-	v := E.freshResults(hf, st, "res$"+lastName(body.Name()), res)
+	var v Val
+	if org := originOf(body); E.P.pureFns[org] {
+		// a contract on a function that is also declared //verif:pure: the result is a function of the
+		// arguments (so specifications can name it), and the contract constrains it
+		E.note("declared pure (//verif:pure): " + shortName(org.String()) + " has no effect and returns a function of its arguments")
+		v = E.pureResult(hf, st, org.String(), res, args, nil)
+	} else {
+		v = E.freshResults(hf, st, "res$"+lastName(body.Name()), res)
+	}
 	hf.useResult = v
 	return v
 }
